@@ -219,7 +219,11 @@ func (self *FieldMask) marshalRec(buf *[]byte) error {
 		}
 		sort.Stable(fds)
 		for _, v := range fds {
-			cont, err := writer(json.RawMessage(strconv.Quote(v.id)), v.fm)
+			key, err := json.Marshal(v.id) // a JSON string; strconv.Quote writes Go escapes such as \x01
+			if err != nil {
+				return err
+			}
+			cont, err := writer(json.RawMessage(key), v.fm)
 			if err != nil {
 				return err
 			}
